@@ -287,6 +287,13 @@ func (w *world) idSpans() []idSpan {
 			if cl.sawClose && cl.closeAt < to {
 				to = cl.closeAt // the broker has closed the connection: the session is over
 			}
+			// displaced by a newer connection with the same client identifier: from then on the
+			// broker may end the session (and take back its identifiers) whenever it likes
+			for _, other := range w.clients {
+				if other != cl && other.connack != nil && other.opts.ClientID == cl.opts.ClientID && other.connectAt > cl.connectAt && other.connectAt < to {
+					to = other.connectAt
+				}
+			}
 			spans = append(spans, idSpan{client: id, pid: ex.pid, tag: ex.tag, from: ex.firstAt, to: to, node: cl.node})
 		}
 	}
@@ -840,6 +847,20 @@ func judgeIDs(w *world) {
 func genC06E1(r *Rand, tier, profile string) *Case {
 	c := genC03(r, tier, profile)
 	c.Profile = "ids"
+	// no displaced subscribers here (C03 has them): this variant's spans end with the client's own
+	// acknowledgement or the end of its session, and the broker may take a displaced session's
+	// identifiers back as soon as its successor has connected
+	kept := c.Steps[:0]
+	for _, s := range c.Steps {
+		if s.K == "connect" && s.C >= 11 && s.C <= 13 {
+			if len(kept) > 0 {
+				kept[len(kept)-1].W = false
+			}
+			continue
+		}
+		kept = append(kept, s)
+	}
+	c.Steps = kept
 	if r.Bool(0.4) {
 		c.Knobs["pool_free"] = int64(r.Range(1, 4))
 	}
